@@ -118,6 +118,9 @@ impl Default for Task {
 }
 
 pub(crate) enum AbortReason<DBError> {
+    /// No longer raised by workers: an error observed at the commit head is re-evaluated by
+    /// sequential replay. `post_execute` still honours the reason.
+    #[cfg_attr(not(test), allow(dead_code))]
     FatalEvmError(TxId),
     CommitError(GrevmError<DBError>),
     ParallelError { txid: TxId, message: &'static str },
